@@ -222,8 +222,12 @@ unsafe fn classify(fs: &FsState, path: *const c_char, follow_last: bool) -> Opti
 // calls), so an interposer can wait for the lock: with a multi-threaded compiler another thread may hold it for a
 // moment, and an event must not be lost because of that.
 fn emit(ev: Ev) {
+    // a compiler that does its file I/O on helper threads is multi-threaded although it may be back to one thread by
+    // the time it talks to its generators: notice it here as well
+    let threads = raw::thread_count();
     let mut g = KERNEL.lock().unwrap_or_else(|p| p.into_inner());
     if let Some(k) = g.as_mut() {
+        k.max_threads = k.max_threads.max(threads);
         k.emit(ev);
     }
 }
@@ -246,15 +250,26 @@ fn fault_for(fs: &mut FsState, op: FsOp, rel: &str) -> Option<FsAction> {
     None
 }
 
+thread_local! {
+    /// set while this thread is inside `with_fs` (a libc call made by the seam itself must pass through)
+    static IN_SEAM: std::cell::Cell<bool> = const { std::cell::Cell::new(false) };
+}
+
 fn with_fs<R>(f: impl FnOnce(&mut FsState) -> R) -> Option<R> {
     if !active() {
         return None;
     }
-    let mut g = match FS.try_lock() {
-        Ok(g) => g,
-        Err(_) => return None, // re-entered from inside the seam: pass through
+    // Re-entrancy is a per-thread matter; another thread holding the lock for a moment is not (a compiler may do its
+    // file I/O on helper threads, and a fault must not be skipped because of contention).
+    if IN_SEAM.with(|c| c.replace(true)) {
+        return None;
+    }
+    let r = {
+        let mut g = FS.lock().unwrap_or_else(|p| p.into_inner());
+        g.as_mut().map(f)
     };
-    g.as_mut().map(f)
+    IN_SEAM.with(|c| c.set(false));
+    r
 }
 
 fn flags_text(flags: c_int) -> String {
